@@ -339,3 +339,77 @@ Proof.
   intro t. apply (ssorted_of_seq _ _ 0). unfold idx.
   apply (index_map_seq (doc_nodes t) []). simpl. apply doc_nodes_nodup.
 Qed.
+
+(* ---------- the visited nodes are exactly the nodes of the tree ---------- *)
+Definition with_path (n : node) (q : rpath) : node :=
+  match n with NSelf _ => NSelf q | NAttr _ j => NAttr q j end.
+
+Lemma with_path_self : forall n, with_path n (npath n) = n.
+Proof. destruct n; reflexivity. Qed.
+
+Lemma sub_snoc : forall s q j,
+  sub s (q ++ [j]) = match nth_error (kids_of s) j with Some c => sub c q | None => None end.
+Proof. intros. unfold sub. rewrite rev_app_distr. reflexivity. Qed.
+
+Lemma valid_node_snoc : forall s n q j,
+  valid_node s (with_path n (q ++ [j])) =
+  match nth_error (kids_of s) j with Some c => valid_node c (with_path n q) | None => false end.
+Proof.
+  intros s n q j. destruct n as [r|r j0]; simpl.
+  - rewrite sub_snoc. destruct (nth_error (kids_of s) j); reflexivity.
+  - unfold nattrs. rewrite sub_snoc. destruct (nth_error (kids_of s) j); reflexivity.
+Qed.
+
+Lemma forest_in : forall p ks i n,
+  In n (forest p ks i) <-> exists j c, nth_error ks j = Some c /\ In n (all_nodes c ((i + j) :: p)).
+Proof.
+  intros p. induction ks as [|c r IH]; intros i n; simpl.
+  - split. contradiction. intros [j [c [H _]]]. destruct j; discriminate.
+  - rewrite in_app_iff, IH. split.
+    + intros [H|[j [c' [H1 H2]]]].
+      * exists 0, c. rewrite Nat.add_0_r. auto.
+      * exists (S j), c'. replace (i + S j) with (S i + j) by lia. auto.
+    + intros [j [c' [H1 H2]]]. destruct j as [|j]; simpl in H1.
+      * injection H1 as <-. rewrite Nat.add_0_r in H2. auto.
+      * right. exists j, c'. replace (S i + j) with (i + S j) by lia. auto.
+Qed.
+
+Lemma list_end : forall (A : Type) (l : list A), l = [] \/ exists l' x, l = l' ++ [x].
+Proof.
+  intros A l. induction l using rev_ind. auto. right. exists l, x. reflexivity.
+Qed.
+
+Definition valid_ok (s : tree) : Prop :=
+  forall p n, In n (all_nodes s p) <->
+              exists q, npath n = q ++ p /\ valid_node s (with_path n q) = true.
+
+Lemma all_nodes_valid : forall s, valid_ok s.
+Proof.
+  apply tree_ind2. intros k na kids IH p n. rewrite all_nodes_unfold, in_app_iff. split.
+  - intros [H|H].
+    + exists []. split. simpl. eapply self_in; eauto.
+      destruct H as [H|H]. subst n. reflexivity.
+      apply in_map_iff in H. destruct H as [j [<- Hj]]. apply in_seq in Hj. simpl.
+      apply Nat.ltb_lt. unfold nattrs. simpl. lia.
+    + apply forest_in in H. destruct H as [j [c [Hc Hin]]].
+      assert (Pc : valid_ok c). { rewrite Forall_forall in IH. apply IH. eapply nth_error_In; eauto. }
+      apply Pc in Hin. destruct Hin as [q [Hq Hv]]. exists (q ++ [j]). split.
+      rewrite <- app_assoc. exact Hq.
+      rewrite valid_node_snoc. simpl. rewrite Hc. exact Hv.
+  - intros [q [Hq Hv]]. destruct (list_end _ q) as [E|[q' [j E]]]; subst q.
+    + left. simpl in Hq. destruct n as [r|r j]; simpl in *; subst r.
+      * left; reflexivity.
+      * right. apply in_map. apply in_seq. apply Nat.ltb_lt in Hv. unfold nattrs in Hv. simpl in Hv. lia.
+    + right. rewrite valid_node_snoc in Hv. simpl in Hv.
+      destruct (nth_error kids j) as [c|] eqn:Hc; [|discriminate].
+      assert (Pc : valid_ok c). { rewrite Forall_forall in IH. apply IH. eapply nth_error_In; eauto. }
+      apply forest_in. exists j, c. split; auto. apply Pc. exists q'. split; auto.
+      rewrite <- app_assoc in Hq. exact Hq.
+Qed.
+
+Lemma doc_nodes_valid : forall t n, In n (doc_nodes t) <-> valid_node t n = true.
+Proof.
+  intros t n. unfold doc_nodes. rewrite (all_nodes_valid t [] n). split.
+  - intros [q [Hq Hv]]. rewrite app_nil_r in Hq. subst q. rewrite with_path_self in Hv. exact Hv.
+  - intro H. exists (npath n). rewrite app_nil_r, with_path_self. auto.
+Qed.
